@@ -84,10 +84,8 @@ func runC10(a common.Args) {
 	defer rc.Close()
 	g := &c10{w: w, rc: rc}
 	id := 1
-	// (0) ONE dedicated trace for the input class in which DistributeRewardsRandN may select a subset
-	// without stake (N = 0, or at least min(N, #pools) pools with zero balance; DESIGN §7 #15).  Everywhere
-	// else such a call is made with DistributeRewards instead (see avoidZeroSubset): vcheck re-validates
-	// the whole run once per rejected trace, so a recorded finding must stay confined to few traces.
+	// (0) one scripted trace that surely reaches the input class in which DistributeRewardsRandN selects a
+	// subset without stake (N = 0, or only pools with zero balance; DESIGN §7 #15)
 	if a.Only == 0 || a.Only == id {
 		g.zeroSubset(a, id)
 	} else {
@@ -157,7 +155,7 @@ func (g *c10) behaviour(a common.Args, id int, raw json.RawMessage) {
 	for i := range b.Ops {
 		b.Ops[i].Seed = r.Int63()
 	}
-	g.run(id, "tlc", c, b.Ops, true)
+	g.run(id, "tlc", c, b.Ops)
 }
 
 // zeroSubset: the dedicated trace of the stake-less-subset class.
@@ -168,7 +166,7 @@ func (g *c10) zeroSubset(a common.Args, id int) {
 	for i := 0; i < 6; i++ {
 		ops = append(ops, c10Op{Kind: "randn", V: uint64(3 + r.Intn(20)), N: 1 + r.Intn(2), Seed: r.Int63()})
 	}
-	g.run(id, "zero-subset", c, ops, false)
+	g.run(id, "zero-subset", c, ops)
 }
 
 func pick(r *rand.Rand, xs ...uint64) uint64 { return xs[r.Intn(len(xs))] }
@@ -249,7 +247,7 @@ func (g *c10) random(a common.Args, id int) {
 		}
 		ops = append(ops, op)
 	}
-	g.run(id, "random", c, ops, true)
+	g.run(id, "random", c, ops)
 }
 
 func bi(v uint64) *big.Int { return new(big.Int).SetUint64(v) }
@@ -290,14 +288,7 @@ func zeroSubsetClass(c *c10Case, op c10Op) bool {
 	return op.Kind == "randn" && n > 0 && zeros >= k
 }
 
-func (g *c10) run(id int, kind string, c *c10Case, ops []c10Op, avoidZeroSubset bool) {
-	if avoidZeroSubset {
-		for i := range ops {
-			if zeroSubsetClass(c, ops[i]) {
-				ops[i].Kind, ops[i].N = "all", 0
-			}
-		}
-	}
+func (g *c10) run(id int, kind string, c *c10Case, ops []c10Op) {
 	balances := g.balances()
 	sp := c.build()
 	var rw []pair
@@ -341,7 +332,7 @@ func (g *c10) step(balances cstate.StateContextI, sp *stakepool.StakePool, c *c1
 
 	// ---- read back
 	inc := make([]*big.Int, n)
-	var incP, preP, balP []pair
+	var incP, preP, postP, balP []pair
 	sum := new(big.Int)
 	stake := new(big.Int)
 	allZero := true
@@ -369,6 +360,7 @@ func (g *c10) step(balances cstate.StateContextI, sp *stakepool.StakePool, c *c1
 		}
 		incP = append(incP, pair{p.name, clampBig(inc[i])})
 		preP = append(preP, pair{p.name, capU(pre[i])})
+		postP = append(postP, pair{p.name, capU(post)})
 		balP = append(balP, pair{p.name, capU(bal[i])})
 	}
 	cInc := new(big.Int).Sub(bi(uint64(sp.Reward)), bi(spPre))
@@ -442,8 +434,8 @@ func (g *c10) step(balances cstate.StateContextI, sp *stakepool.StakePool, c *c1
 	m := rec.M{
 		"ev": "Dist", "kind": op.Kind, "v": capU(op.V), "n": op.N, "killed": killed,
 		"min_stake": capU(c.minStake), "cnum": c.cnum, "cden": c.cden,
-		"pools": orEmpty(balP), "pre": orEmpty(preP), "inc": orEmpty(incP),
-		"sp_pre": capU(spPre), "sp_inc": clampBig(cInc),
+		"pools": orEmpty(balP), "pre": orEmpty(preP), "inc": orEmpty(incP), "post": orEmpty(postP),
+		"sp_pre": capU(spPre), "sp_inc": clampBig(cInc), "sp_post": capU(uint64(sp.Reward)),
 		"err": err != nil, "panic": panicked != "", "big": isBig,
 		"v_zero": op.V == 0, "under": under, "n_pools": n, "all_zero": allZero,
 		"sum_diff": clampBig(sumDiff), "charge_dev": clampBig(chargeDev), "prop_dev": clampBig(propDev),
@@ -468,6 +460,9 @@ func (g *c10) step(balances cstate.StateContextI, sp *stakepool.StakePool, c *c1
 		class = "inexact"
 	case sumDeleg.Sign() == 0:
 		class = "chargeonly"
+	}
+	if zeroSubset {
+		class += "/zs"
 	}
 	if isBig {
 		class += "/big"
